@@ -6,6 +6,24 @@ PY = '/venv/bin/python'
 CHECKS = {
  'C01': ('Every symbol accepted by make/make_qr/make_micro is decoded by an independent ISO 18004 reference decoder inside a post-condition on encoder.encode and compared byte for byte with the specification-level payload; ECI headers are checked against an independent AIM assignment table. Exploration: thousands of class-stratified inputs per run, all 256 one-byte inputs, every mode at every version at, below and just above capacity (thorough: all 65,536 two-byte inputs).',
          'runtime monitor: icontract post-condition on encoder.encode + reference decoder oracle', '6 C01'),
+ 'C02': ('All 1312 (version, level, mask) triples are enumerated on every run with several contents each; every module of every emitted matrix is compared with an independent function-pattern map, format/version words are recomputed (BCH/Golay) and cross-checked by zero RS syndromes, QRCode metadata is compared with the matrix.',
+         'runtime monitor: post-condition on encoder.encode + independent geometry/format model, exhaustive triple enumeration', '6 C02'),
+ 'C03': ('All 168 block layouts: syndromes under the independent Table 9 layout must vanish; then faults are injected into the emitted matrix (up to floor(ec/2) codewords per block in several patterns) and a Berlekamp-Massey decoder must restore data and payload. Evidence counts injected vs corrected codewords.',
+         'runtime monitor + fault injection on the output, RS syndrome / BM decoder oracle', '6 C03'),
+ 'C04': ('Every (version, level, mode) capacity boundary of the independent model, both sides, automatic and requested version, crossed with micro/eci/boost and multi-segment boundaries; accepted symbols are decoded and re-costed in all smaller admissible versions; overflow must be DataOverflowError.',
+         'runtime monitor: boundary-stratified workload + capacity model oracle on decoded segments', '6 C04'),
+ 'C05': ('Capacity boundaries x requested level x boost: level read from the format information, expected boosted level recomputed from decoded bit count; the monitor issues the paired boost-off call and compares versions; make_sequence with boost off included.',
+         'runtime monitor: post-condition + paired-call differential oracle', '6 C05'),
+ 'C06': ('All candidate maskings are reconstructed from the emitted matrix and scored with an independent ISO 7.8.3 scorer; automatic mask must be the lowest-numbered optimum, requested mask must be the one applied (format word + zero syndromes), also through make_sequence. One pinned deviation (N3 overlap) is a classified known finding.',
+         'runtime monitor: post-condition + unmask/remask/score oracle from the output alone', '6 C06'),
+ 'C07': ('All one-byte and (thorough: all 65,536) two-byte contents plus class strings x requested mode x version class; decoded mode indicator vs specification-level expectation; representable requested modes must be honoured, unrepresentable refused with ValueError.',
+         'runtime monitor: post-condition + mode model oracle, small-scope exhaustive inputs', '6 C07'),
+ 'C08': ('make_sequence over content classes x selectors x levels x lengths up to beyond 16 symbols; every symbol decoded; offline checker over the sequence (count, versions, headers, parity, reassembly). Three pinned/recorded mechanisms are classified known findings.',
+         'runtime monitor: offline checker over recorded symbol sequences + reference decoder', '6 C08'),
+ 'C13': ('Lengths constructed so that every residue x distance-to-capacity combination occurs for QR and each Micro version; the tail after the last segment (terminator, alignment bits, pad codewords, final nibble, remainder bits) is checked on the decoded data codewords. One pinned deviation (extra 0x00 codeword) is a classified known finding.',
+         'runtime monitor: post-condition + tail-structure analysis of decoded codewords', '6 C13'),
+ 'C14': ('Thousands of argument vectors from domain tables (all documented spellings and boundary junk) for make/make_qr/make_micro/make_sequence with an exception-class monitor and a model of excluded combinations, spelling pairs compared by matrix, serialiser refusals, CLI subprocesses compared with the library message.',
+         'runtime monitor: exception-class monitor + combination model + differential spelling pairs + CLI subprocess observation', '6 C14'),
 }
 NOTE = 'Trusted base: /verif/refmodel (independent model/decoder and format readers), CPython codecs/zlib/xml. Held means held on the executions listed in the evidence file.'
 def main():
